@@ -15,12 +15,14 @@ report contains violation if {
 
 	ref := ast.ref_to_string(rule.head.ref)
 
-	_default_rule_values[ref] == rule.head.value.value
+	rule.head.value.value in _default_rule_values[ref]
 
 	violation := result.fail(rego.metadata.chain(), result.location(rule.head.value))
 }
 
-_default_rule_values[ref] := rule.head.value.value if {
+# a set per ref, not a single value: a module that declares two defaults for one rule is rejected by the
+# compiler but parses, and must not make the evaluation of this rule fail on conflicting object keys
+_default_rule_values[ref] contains rule.head.value.value if {
 	some rule in input.rules
 	rule["default"]
 
